@@ -70,7 +70,10 @@ TypeOf(name) ==
       [] name = "F28" -> Struct(<<Fld(n_flag, "attr", BOOL), Fld(n_ratio, "attr", FLOAT), Fld(n_ch, "elem", STR), Fld(n_flag, "elem", List(BOOL)), Fld(<<114>>, "elem", FLOAT)>>)
             \* (no $text next to child elements: mixed content is documented only through $value choices)
       [] name = "F29" -> Struct(<<Fld(n_a, "elem", List(STR)), Fld(n_b, "elem", List(SELFNEST)), Fld(n_d, "elem", List(NUM))>>)
+      [] name = "F30" -> Struct(<<Fld(n_a, "attr", STR), Fld(n_l, "attr", SList(STR)), Fld(<<101>>, "elem", STR), Fld(n_item, "elem", List(STR))>>)
+      [] name = "F31" -> Struct(<<Fld(n_k, "attr", STR), Fld(n_text, "text", STR)>>)
       [] name = "H01" -> Struct(<<Fld(n_m, "elem", [t |-> "map"])>>)
+      [] name = "H07" -> Struct(<<Fld(n_value, "value", List(Opt(CHOICE)))>>)     \* items that may write nothing inside mixed content
       [] OTHER -> [t |-> "unknown"]       \* outside the schema language: the model has no opinion (SerTree = Fail)
 RootBytes(name) ==
     CASE name = "F01" -> <<70,48,49>>
@@ -93,10 +96,13 @@ RootBytes(name) ==
       [] name = "F25" -> <<70,50,53>>
       [] name = "F26" -> <<70,50,54>>
       [] name = "F29" -> <<70,50,57>>
+      [] name = "F30" -> <<70,51,48>>
+      [] name = "F31" -> <<70,51,49>>
       [] name = "F27" -> <<70,50,55>>
       [] name = "F28" -> <<70,50,56>>
       [] name = "H01" -> <<72,48,49>>
       [] name = "H02" -> <<72,48,50>>
+      [] name = "H07" -> <<72,48,55>>
       [] name = "H05" -> <<72,48,53>>
       [] name = "H06" -> <<72,48,54>>
       [] OTHER -> <<114>>
@@ -107,7 +113,7 @@ JKey(f) == IF f.kind = "attr" THEN <<64>> \o f.key ELSE f.key
 ---------------------------------------------------------------------------
 \* value generators.  Strings: round-trippable pool (no leading/trailing XML
 \* whitespace - the deserializer is documented to trim) and hostile additions.
-StrRT == { <<59, 60>>, <<38, 59, 38>>, <<>>, <<97>>, <<60>>, <<38>>, <<34>>, <<39>>, <<97, 32, 98>>, <<195, 169>>, <<93, 93, 62>>, <<38, 97, 109, 112, 59>>, <<45, 45>> }
+StrRT == { <<97, 239, 187, 191, 98>>, <<59, 60>>, <<38, 59, 38>>, <<>>, <<97>>, <<60>>, <<38>>, <<34>>, <<39>>, <<97, 32, 98>>, <<195, 169>>, <<93, 93, 62>>, <<38, 97, 109, 112, 59>>, <<45, 45>> }
 StrSmall == { <<>>, <<97>>, <<60>> }
 StrHostile == StrRT \cup { <<32>>, <<32, 97>>, <<10>>, <<0>>, <<62>>, <<60, 97, 62>> }
 \* items of space-separated lists: non-empty, no XML whitespace (src/de/mod.rs docs)
@@ -179,10 +185,19 @@ ValuesOf(name, Pl, mode) ==       \* mode "rt": the documented round-trippable d
       [] name = "F29" -> {O(<<<<n_a, A(xs)>>, <<n_b, A(ys)>>, <<n_d, A(zs)>>>>) :
                             xs \in Seqs({S(<<97>>)}, 2),
                             ys \in Seqs({O(<<<<n_b, A(w)>>>>) : w \in {<<S(<<120>>)>>, <<S(<<120>>), S(<<60>>)>>}}, 2), zs \in Seqs({Nm(<<55>>)}, 2)}
+      \* strings that reach the serializer through collect_str (Display), in every position a simple value can take
+      [] name = "F30" -> {O(<<<<<<64>> \o n_a, S(a)>>, <<<<64>> \o n_l, A(xs)>>, <<<<101>>, S(e)>>, <<n_item, A(ys)>>>>) :
+                            a \in {<<>>, <<60>>, <<34>>, <<38>>}, xs \in Seqs({S(s) : s \in {<<97>>, <<34>>, <<60>>}}, 2),
+                            e \in {<<97>>, <<60>>, <<38>>}, ys \in Seqs({S(<<62>>), S(<<38>>)}, 1)}
+      [] name = "F31" -> {O(<<<<<<64>> \o n_k, S(a)>>, <<n_text, S(t)>>>>) : a \in {<<>>, <<60>>, <<34>>, <<39>>}, t \in Pl}
       [] name = "H01" -> {O(<<<<n_m, O(ps)>>>>) : ps \in {<<<<k, S(<<97>>)>>>> : k \in {<<>>, <<60>>, <<97, 32, 98>>, <<49, 97>>, <<97>>, <<97, 62>>, <<195, 169>>, <<45, 97>>, <<97, 47>>, <<97, 47, 98>>, <<97, 34>>, <<97, 61>>, <<97, 38>>}}}
       \* outside the schema language (C13 only): Option without skip, nested sequences, unit variants named like markup
       [] name = "H02" -> {O(<<<<<<111>>, x>>, <<<<110>>, A(ys)>>>>) : x \in {None, S(<<60>>)},
                             ys \in Seqs({A(zs) : zs \in Seqs({S(<<97>>), S(<<60>>)}, 2)}, 2)}
+      [] name = "H07" ->
+            LET It == {None, [u |-> n_One], [v |-> n_text, x |-> S(<<97, 98, 99>>)]} IN
+            \* (two text items separated only by absent items would be written as one text: outside what can be told apart)
+            {O(<<<<n_value, A(xs)>>>>) : xs \in {y \in Seqs(It, 4) : NoAdjacentText(SelectSeq(y, LAMBDA i : i # None))}}
       [] name = "H05" -> {O(<<<<n_value, [u |-> nm]>>>>) : nm \in {<<60>>, <<97, 32, 98>>, <<>>, <<111, 107>>}}
       [] name = "H06" -> {O(<<<<<<102>>, [u |-> a]>>, <<<<64, 97>>, [u |-> b]>>>>) :
                             a \in {<<60>>, <<97, 32, 98>>, <<>>, <<111, 107>>}, b \in {<<60>>, <<97, 32, 98>>, <<>>, <<111, 107>>}}
@@ -191,5 +206,5 @@ ValuesOf(name, Pl, mode) ==       \* mode "rt": the documented round-trippable d
 \* root tags passed to the serializer (to_string_with_root); the default is the type name
 HostileRoots == { <<120, 46, 121>>, <<120, 45, 49>>, <<120, 194, 183>>, <<97, 47>>, <<97, 47, 98>>, <<>>, <<60>>, <<97, 32, 98>>, <<49, 97>>, <<97, 62>>, <<195, 169>>, <<120, 58, 121>>, <<45, 97>>, <<114>> }
 
-RTTypes == {"F01", "F02", "F03", "F04", "F05", "F07", "F08", "F11", "F15", "F16", "F17", "F18", "F19", "F20", "F22", "F23", "F24", "F25", "F26", "F27", "F28", "F29"}
+RTTypes == {"F01", "F02", "F03", "F04", "F05", "F07", "F08", "F11", "F15", "F16", "F17", "F18", "F19", "F20", "F22", "F23", "F24", "F25", "F26", "F27", "F28", "F29", "F30", "F31"}
 =============================================================================
